@@ -119,6 +119,8 @@ func C02(tier rt.Tier) int {
 			}
 			return tab.check(w)
 		})
+		twoLevelSweep(rep, "canonical-root", Mem, 1, canonicalOracle)
+		byteSweep(rep, "canonical-root", []StoreKind{Mem}, 1, canonicalOracle)
 	}
 	rep.Set("distinct_roots", len(tab.m))
 	rep.Set("rule", "BFS over all histories at a fixed version (inserts, overwrites, deletes, delete-then-reinsert, interior-path values, save+reopen); at every state GetRoot() must equal an independent canonical-trie hasher (own SHA3, own encoder, shares no code with core/util) applied to the model content, every canonical node must be stored under its hash with byte-identical encoding, and root<->content must be a bijection over all visited states")
@@ -271,6 +273,8 @@ func C14(tier rt.Tier) int {
 		}
 		sizeSweep(rep, "stored-under-own-hash", lens, []StoreKind{Mem, LevelP}, 3, storeOracle, nil)
 		widthSweep(rep, "stored-under-own-hash", []StoreKind{Mem, PDirect}, 3, storeOracle)
+		twoLevelSweep(rep, "stored-under-own-hash", LevelP, 3, storeOracle)
+		byteSweep(rep, "stored-under-own-hash", []StoreKind{Mem, LevelP, PDirect}, 3, storeOracle)
 	}
 	rep.RunVariant()
 	rep.Set("rule", "BFS over all histories with separator-laden/binary values and negative/zero/huge versions on memory, layered, doubly layered and persistent(stand-in) stores, the trie also sitting directly on the persistent store; at every state every node of every store level must be keyed by GetHashBytes(), CreateNode(Encode(n)) must have the same hash and encoding, and a trie re-read from the store must reference every node by its recomputed hash")
